@@ -293,7 +293,6 @@ func callerSite(fr *frame) string {
 	return ""
 }
 
-
 // decimalDigits renders non-negative x with exactly w digits as byte terms.
 func decimalDigits(x value, w int) value {
 	if _, ok := x.(*Sym); !ok {
